@@ -12,7 +12,7 @@ from props.C16 import _enc_dict
 
 REQUIRED_THEOREMS = ['Usid.C05.returned_is_genuine', 'Usid.C05.resume_is_most_recent_partial', 'Usid.C05.else_fresh',
                      'Usid.C05.malformed_never_used', 'Usid.C05.override_fresh_and_frame']
-RULE = ('histories of 0-5 earlier result groups (built with raw h5py) over dataset names {Raw, Raw_Data, Data, aw} x tools '
+RULE = ('[also: float / string lists and booleans as parameters, one value against a list of values, a recorded source reference pointing at this or at ANOTHER dataset of the file, verbose=True; no group other than the reused one may change] histories of 0-5 earlier result groups (built with raw h5py) over dataset names {Raw, Raw_Data, Data, aw} x tools '
         '{Fit, Fitter, it, Fit_x}, parameters equal or differing in one value (including a large whole number off by one and a float off by a relative 4e-8)/type/length/key, progress records of every '
         'kind (complete, partial, legacy attribute only, neither, wrong dtype/length/rank, non-dataset, values outside '
         '{0,1}, nearly complete large N), same-file and separate-file targets (also a foreign source with the same '
@@ -20,7 +20,7 @@ RULE = ('histories of 0-5 earlier result groups (built with raw h5py) over datas
         'group whose name contains the dataset and tool text')
 DSETS = ['Raw', 'Raw_Data', 'Data', 'aw']
 TOOLS = ['Fit', 'Fitter', 'it', 'Fit_x', 'Fit_2']
-BASE_PARMS = {'a': 1, 'b': 'x', 'c': [1, 2, 3], 'd': 2.5, 'e': 250000}
+BASE_PARMS = {'a': 1, 'b': 'x', 'c': [1, 2, 3], 'd': 2.5, 'e': 250000, 'f': [0.5, 1.5], 'g': ['x', 'yy'], 'h': True}
 PROGRESS = ['complete', 'partial', 'partial', 'legacy-complete', 'legacy-partial', 'neither', 'wrong-dtype',
             'wrong-length', 'rank2', 'not-dataset', 'values-2', 'complete', 'partial']
 TRUSTED = ['the source of a results group in another file is identified by name only (known finding KF-D15)']
@@ -28,9 +28,20 @@ TRUSTED = ['the source of a results group in another file is identified by name 
 
 def perturb_parms(rng):
     p = copy.deepcopy(BASE_PARMS)
-    k = rng.choice(['same', 'same', 'same', 'value', 'type', 'length', 'missing', 'extra', 'str', 'near-int', 'near-float'])
+    k = rng.choice(['same', 'same', 'same', 'same', 'value', 'type', 'length', 'missing', 'extra', 'str', 'near-int', 'near-float',
+                    'flist', 'slist', 'bool', 'scalar-as-list', 'list-as-scalar'])
     if k == 'value':
         p['a'] = 2
+    elif k == 'flist':
+        p['f'] = [0.5, 2.5]
+    elif k == 'slist':
+        p['g'] = ['x', 'yz']
+    elif k == 'bool':
+        p['h'] = False
+    elif k == 'scalar-as-list':         # one value against a list of that value
+        p['a'] = [1, 1]
+    elif k == 'list-as-scalar':
+        p['c'] = 1
     elif k == 'near-int':            # a large whole number off by one: relative difference 4e-6
         p['e'] = 250001
     elif k == 'near-float':          # a scalar float off by a relative 4e-8
@@ -79,14 +90,16 @@ def generate(seed, tier):
                 mask = [2] * ((n + 1) // 2) + [0] * (n - (n + 1) // 2)
             else:
                 mask = [1] * n
-            prior.append({'dset': pd, 'tool': pt, 'index': idx, 'parms': parms, 'parms_kind': pk, 'progress': prog,
+            prior.append({'src_ref': rng.choice(['none', 'none', 'this', 'other']),
+                          'dset': pd, 'tool': pt, 'index': idx, 'parms': parms, 'parms_kind': pk, 'progress': prog,
                           'mask': mask, 'last_pixel': rng.randint(0, n - 1) if prog == 'legacy-partial' else n,
                           'foreign': False})
         separate = rng.random() < 0.3
         if separate and prior and rng.random() < 0.4:
             prior[rng.randrange(len(prior))]['foreign'] = True
         cases.append({'n': n, 'm': 2, 'dset': d, 'tool': t, 'prior': prior, 'separate': separate,
-                      'override': rng.random() < 0.25, 'query_parms': copy.deepcopy(BASE_PARMS)})
+                      'override': rng.random() < 0.25, 'query_parms': copy.deepcopy(BASE_PARMS),
+                      'verbose': rng.random() < 0.15})
     return cases
 
 
@@ -104,8 +117,12 @@ def _mk_prior(parent, pr, n, mains):
     g = parent.create_group(name)
     g.attrs['tool'] = pr['tool']
     g.attrs['verif_source'] = ('foreign:' if pr['foreign'] else 'this:') + pr['dset']
+    if parent.file == mains[pr['dset']].file and pr.get('src_ref', 'none') != 'none':
+        # the reference create_results_group() records within one file: to this very dataset, or to ANOTHER one
+        other = [d for d in DSETS if d != pr['dset']][0]
+        g.attrs['source_000'] = (mains[pr['dset']] if pr['src_ref'] == 'this' else mains[other]).ref
     for k, v in pr['parms'].items():
-        g.attrs[k] = v if not isinstance(v, list) else np.array(v)
+        g.attrs[k] = v if not isinstance(v, list) else (np.array(v) if not isinstance(v[0], str) else np.array(v, dtype='S'))
     g.create_dataset('Results', data=np.full((n,), -5.0))
     prog = pr['progress']
     if prog in ('complete', 'partial', 'values-2'):
@@ -157,6 +174,8 @@ def run_impl(inp, work):
         before = {k: _dump(parent[k]) for k in names}
         with Machine(4, 2 ** 33), quiet():
             kw = {} if ft is None else {'h5_target_group': parent}
+            if inp.get('verbose'):
+                kw['verbose'] = True
             r = call(lambda: RowProc(mains[inp['dset']], process_name=inp['tool'], parms=inp['query_parms'],
                                      cores=1, **kw))
         if r[0] == 'err':
@@ -195,7 +214,7 @@ def run_impl(inp, work):
 def _genuine(inp, pr):
     """does the prior group really belong to (this dataset, this tool, these parameters)?"""
     return pr['dset'] == inp['dset'] and pr['tool'] == inp['tool'] and not pr['foreign'] and \
-        pr['parms_kind'] in ('same', 'extra')
+        pr['parms_kind'] in ('same', 'extra') and not (pr.get('src_ref') == 'other' and not inp['separate'])
 
 
 def _kind(pr, n):
@@ -258,7 +277,10 @@ def oracle(inp, obs):
                              % (ret, good_complete or good_partial))
             if obs['calls'] != list(range(n)):
                 fails.append('fresh-calls: fresh computation did not map every position')
-        # construction must not alter unrelated groups (strict frame only claimed under override)
+        # whatever is reused, no OTHER group may be written into
+        touched = [k for k in obs['changed'] if k != ret]
+        if touched:
+            fails.append('frame: groups %s were altered although %s was the one returned / resumed' % (touched, ret))
     return fails
 
 
@@ -287,7 +309,8 @@ def model_requests(inp):
     for pr in prior:
         attrs = dict(pr['parms'])
         attrs['tool'] = pr['tool']
-        groups.append({'name': '%s-%s_%03d' % (pr['dset'], pr['tool'], pr['index']), 'is_group': True,
+        groups.append({'other_source': pr.get('src_ref') == 'other' and not inp['separate'],
+                       'name': '%s-%s_%03d' % (pr['dset'], pr['tool'], pr['index']), 'is_group': True,
                        'attrs': _enc_dict(attrs), 'status': _enc_status(pr, inp['n']),
                        'last_pixel': pr['last_pixel'] if pr['progress'].startswith('legacy') else None})
     return [{'op': 'dup.decide', 'groups': groups, 'dset': inp['dset'], 'tool': inp['tool'],
